@@ -146,7 +146,10 @@ let () =
               let b = List.nth secs 1 and s = List.nth secs 2 in
               if b <> s then report_spec ~prop:"C14" ~pred:"from_utf8_lossy_like_std" ~detail:(inp ^ ":" ^ b ^ "_vs_std_" ^ s);
               let m = hex_of_bytes (from_utf8_lossy actual_width (bytes_of_hex inp)) in
-              if m <> b then report_mismatch ~field:"lossy" ~model:m ~impl:(inp ^ ":" ^ b)
+              if m <> b then report_mismatch ~field:"lossy" ~model:m ~impl:(inp ^ ":" ^ b);
+              (* the implementation-independent specification against std itself *)
+              let sp = hex_of_bytes (utf8_lossy_spec (bytes_of_hex inp)) in
+              if sp <> s then report_mismatch ~field:"lossy_spec_vs_std" ~model:sp ~impl:(inp ^ ":" ^ s)
             | [_; "utf8"; inp] ->
               hid := "decoders"; header := ""; cur := "utf8 " ^ inp;
               let b = split_ws (List.nth secs 1) and s = List.nth secs 2 in
